@@ -130,7 +130,7 @@ class C09(Prop):
                 else:
                     c = gen.gen_loop(rng)
                 backend = rng.choice(["mem", "mem", "lru1", "lru2", "lru3", "lru4", "disk"])
-                n_runs = rng.randint(1, 4)
+                n_runs = rng.randint(1, 5)
                 # later runs may change one input value (different arguments must miss)
                 seqs = []
                 vals = c["values"]
@@ -138,7 +138,14 @@ class C09(Prop):
                     if i and rng.random() < 0.4 and vals:
                         vals = [list(v) for v in vals]
                         j = rng.randrange(len(vals))
-                        vals[j][1] = rng.randint(0, 4)
+                        # equal-but-distinct values (1 == True, 0 == False) are DIFFERENT arguments
+                        cur = vals[j][1]
+                        if cur is True or cur is False:
+                            vals[j][1] = int(cur)
+                        elif cur in (0, 1) and isinstance(cur, int) and rng.random() < 0.6:
+                            vals[j][1] = bool(cur)
+                        else:
+                            vals[j][1] = rng.choice([0, 1, 0, 1, 2, 3, 4, True, False])
                     seqs.append({"values": vals, "runner": rng.choice(["sync", "async"])})
                 yield {"kind": "runs", "program": mark_cacheable(rng, c["program"]), "runs": seqs, "backend": backend}
             else:
